@@ -12,11 +12,12 @@ structure S where
 
 def showOut : Out → String
   | .pending => "pending" | .wait => "wait" | .closed => "closed" | .conn k => s!"conn {k}"
-  | .ok => "ok" | .errClosed => "errclosed" | .none => "none"
+  | .ok => "ok" | .errClosed => "errclosed" | .innerErr => "innererr" | .none => "none"
 
 def showCtr (c : Counter) : String := s!"{c.current} {showB c.accepting}"
 
-def showPipe (p : Pipe) : String := s!"{p.inflight} {showB p.blocked} {p.queued}"
+def showPipe (p : Pipe) : String :=
+  s!"{p.running} {showB p.blocked} {p.queued} tok={p.tokens} dead={showB p.dead}"
 
 def showListeners (s : St) (n : Nat) : String :=
   " ".intercalate ((List.range n).map fun l =>
@@ -39,8 +40,10 @@ def step (s : S) : List String → S × String
   | ["recheck", l] => doOp s (.recheck (nat! l))
   | ["deliver", l] => doOp s (.deliver (nat! l))
   | ["fail", l] => doOp s (.fail (nat! l))
-  | ["close", k] => doOp s (.close (nat! k))
-  | ["lclose", l] => doOp s (.lclose (nat! l))
+  | ["close", k] => doOp s (.close (nat! k) false)
+  | ["closee", k] => doOp s (.close (nat! k) true)
+  | ["lclose", l] => doOp s (.lclose (nat! l) false)
+  | ["lclosee", l] => doOp s (.lclose (nat! l) true)
   | ["state", n] => (s, showState s.st (nat! n))
   | ["ctr", cur, stop, resume, acc] =>
     let c : Counter := { current := nat! cur, stop := nat! stop, resume := nat! resume,
@@ -55,6 +58,7 @@ def step (s : S) : List String → S × String
   | ["pipe", n] => ({ s with pipe := Pipe.init (nat! n) }, showPipe (Pipe.init (nat! n)))
   | ["q"] => let p := s.pipe.step .query; ({ s with pipe := p }, showPipe p)
   | ["done"] => let p := s.pipe.step .done; ({ s with pipe := p }, showPipe p)
+  | ["timeout"] => let p := s.pipe.step .timeout; ({ s with pipe := p }, showPipe p)
   | _ => (s, "bad-op")
 
 def main : IO Unit := loop step {}
